@@ -1,12 +1,12 @@
 SPECIFICATION Spec
-CONSTANT Input <- MCInput5
-CONSTANT Cuts <- MCCuts5
-CONSTANT WSet = {0, 1}
+CONSTANT Input <- MCInput4
+CONSTANT Cuts <- MCCuts4
+CONSTANT WSet = {0, 2}
 CONSTANT CfgSet <- MCCfgSetQ
-CONSTANT Skew = 1
+CONSTANT Skew = 2
 CONSTANT SecMs = 2
 CONSTANT TMax = 3
 CONSTANT DMutant = "none"
-CONSTANT DedupMutant = "first_meta"
+CONSTANT DedupMutant = "none"
 INVARIANT AbsChecked
 CHECK_DEADLOCK FALSE
